@@ -1,9 +1,11 @@
+// bench/debug helper: runs one command through the in-process server on a replay store and dumps the raw output.
 package main
 
 import (
+	"encoding/json"
 	"fmt"
 	"os"
-	"time"
+	"strconv"
 
 	"verif/internal/core"
 )
@@ -18,28 +20,19 @@ func main() {
 		panic(err)
 	}
 	w := env.W0()
-	w.Run(core.R(w.Proj, "init"))
-	for i := 0; i < 5; i++ {
-		w.Run(core.R(w.Proj, "--json", "new", "task").In(`{"title":"x"}`))
+	b, _ := os.ReadFile(os.Args[1])
+	var art struct {
+		Replay struct {
+			Store map[string][]byte `json:"store"`
+		} `json:"replay"`
 	}
-	t0 := time.Now()
-	n := 2000
-	var us int64
-	for i := 0; i < n; i++ {
-		us += w.Run(core.R(w.Proj, "--json", "list", "--all")).Micros
+	json.Unmarshal(b, &art)
+	core.Store(art.Replay.Store).Materialize(w.Proj)
+	cols, _ := strconv.Atoi(os.Args[2])
+	for i := 0; i < 3; i++ {
+		req := core.R(w.Proj, os.Args[3:]...).In("")
+		req.PtyCols = cols
+		res := w.Run(req)
+		fmt.Printf("exit=%d\n%q\n", res.Exit, res.Out)
 	}
-	fmt.Printf("inside server: %.3f ms/cmd\n", float64(us)/1000/float64(n))
-	fmt.Printf("server list: %.3f ms/cmd\n", float64(time.Since(t0).Microseconds())/1000/float64(n))
-	t0 = time.Now()
-	for i := 0; i < n; i++ {
-		st, _ := core.Snapshot(w.Proj)
-		st.Materialize(w.Proj)
-	}
-	fmt.Printf("snapshot+materialize: %.3f ms\n", float64(time.Since(t0).Microseconds())/1000/float64(n))
-	t0 = time.Now()
-	for i := 0; i < 200; i++ {
-		w.Spawn(core.R(w.Proj, "--json", "list", "--all"))
-	}
-	fmt.Printf("spawn list: %.3f ms/cmd\n", float64(time.Since(t0).Microseconds())/1000/200)
-	_ = os.Stderr
 }
